@@ -936,6 +936,7 @@ fn c14e_mcnk_liquid_last_witness() {
 /// witness KF-C14-mtxf-unbounded without chunk discovery (no HashMap): MTXF directly in front of an MCNK, as
 /// serialize_to_writer lays them out; then exactly what parse_root_adt does with an MTXF location
 /// (`reader.seek(offset + 8); MtxfChunk::read_le(reader)`)
+// NOT REGISTERED in cat_C14.py: CBMC ran out of memory (status 6) in the reader's terminating error path; see NOTES.md
 #[kani::proof]
 #[kani::stub(std::fmt::format, vio::fmt_stub)]
 #[kani::stub(std::any::TypeId::eq, typeid_ne)]
